@@ -158,7 +158,8 @@ class Run:
         self.harness_bin[key] = out
         return out
 
-    def replay(self, family, cases, prop=None, workers=None, timeout_ms=1500, race=False, env=None, name=None):
+    def replay(self, family, cases, prop=None, workers=None, timeout_ms=1500, race=False, env=None, name=None,
+               collect=None):
         """Replay generated cases on the real code. Returns list of non-ok result dicts; updates counters."""
         binp = self.build(race)
         name = name or (family + "-" + (prop or self.prop))
@@ -182,6 +183,8 @@ class Run:
                 n += 1
                 for k, v in (r.get("stats") or {}).items():
                     self.counts[k] = self.counts.get(k, 0) + v
+                if collect is not None and r.get("got") and "sig" in r["got"]:
+                    collect[r["id"]] = r["got"]["sig"]
                 if r["status"] == "ok":
                     continue
                 if r["status"] == "drift":
